@@ -23,7 +23,7 @@ ASSUMPTIONS = [
     "masked: NBSP written as a character reference (the implementation replaces characters of the source text only)",
     "attribute and element names are compared as written (prefix:local); namespace declarations may move",
 ]
-REQUIRED = ["documents_larger_than_one_mebibyte", "documents_starting_with_a_byte_order_mark", "documents_with_internal_entities", "documents_after_the_rest_of_the_library_was_used", "library_modules_imported", "cross_mode_cases", "strings", "strings_with_nbsp", "documents", "documents_twice", "protected_segments", "normalised_segments", "attribute_values",
+REQUIRED = ["strings_with_gaps_of_a_thousand_and_more_blanks", "documents_larger_than_one_mebibyte", "documents_starting_with_a_byte_order_mark", "documents_with_internal_entities", "documents_after_the_rest_of_the_library_was_used", "library_modules_imported", "cross_mode_cases", "strings", "strings_with_nbsp", "documents", "documents_twice", "protected_segments", "normalised_segments", "attribute_values",
             "xsi_attributes", "protected_nested_in_protected"]
 EXHAUSTIVE = {"quick": False, "thorough": False}
 
@@ -82,6 +82,13 @@ def doc_text(rng):
     k = rng.random()
     if k < 0.25:
         return "".join(rng.choice([" ", "\t", "\n", "\xa0"]) for _ in range(rng.randint(1, 5)))
+    if k < 0.33:
+        # text as authors paste it: the line and paragraph separators of word processors and web forms (no white space for XML), code
+        # that speaks of encodings and versions, a quoted XML header
+        return "".join(rng.choice(["a", "b", " ", "  ", "\n", "\xa0", "\u2028", "\u2029", "\x85", "\x0b".replace("\x0b", "\u2003"), "\u200a", "\ufeff",
+                                   'read_csv(path, encoding="latin-1")', " encoding='cp1252'", ' version="1.0"', ' standalone="yes"',
+                                   '<?xml version="1.0" encoding="UTF-8"?>', "<?xml version='1.0'?>", "&amp;", "<![CDATA[", "-->"])
+                       for _ in range(rng.randint(1, 8)))
     return "".join(rng.choice(["a", "b", "c", "0", " ", " ", "  ", "\t", "\n", "\xa0", " ", "é", "\U0001F600", "<", "&", "x y", "]]>", "​"])
                    for _ in range(rng.randint(1, 10)))
 
@@ -101,7 +108,7 @@ def random_doc(rng, size):
         seen = set()
         for _ in range(rng.choice([0, 0, 1, 2, 3])):
             pfx = "xsi" if rng.random() < 0.25 else None
-            name = rng.choice(["schemaLocation", "type", "nil"]) if pfx else rng.choice(["id", "scope", "system", "unit", "lang2", "a", "b"])
+            name = rng.choice(["schemaLocation", "type", "nil"]) if pfx else rng.choice(["id", "scope", "system", "unit", "lang2", "a", "b", "encoding", "version", "standalone"])
             if (pfx, name) in seen:
                 continue
             seen.add((pfx, name))
@@ -247,6 +254,13 @@ def run(ctx, params):
             ctx.later(lambda c, x=s: judge_string(c, x))
         if i % 4999 == 0:
             ctx.sample({"string": s, "normalised": normalize(s)})
+    # gaps of thousands of blanks (values padded by a fixed-width export), between words and at the edges
+    for n in (999, 1000, 1001, 2000, 2001, 2002, 2003, 3003, 4000, 65536, 65537):
+        for unit in (" ", "\xa0", " \t", "\n ", " \xa0", "\t"):
+            gap = (unit * (n // len(unit) + 1))[:n]
+            for s_ in ("a" + gap + "b", gap + "a", "a" + gap, "a" + gap + "b" + gap + "c d", gap):
+                judge_string(ctx, s_)
+                ctx.count("strings_with_gaps_of_a_thousand_and_more_blanks")
     for fixed in ("", " ", "\xa0", "a", " a ", "a  b", "a\xa0b", "\xa0a\xa0", "a \xa0 b", "a\tb", "a\nb", " \t\n ", "a \t b", "\ta", "a\n"):
         judge_string(ctx, fixed)
     for i in range(params["docs"]):
@@ -301,7 +315,12 @@ class _NoCharRef:
 
 
 def serialize_literal(rng, doc):
-    text = xmlgen.serialize(rng, doc, declaration=rng.random() < 0.3)
+    text = xmlgen.serialize(rng, doc, declaration=rng.random() < 0.4)
+    head = '<?xml version="1.0" encoding="UTF-8"?>'
+    if text.startswith(head):
+        # the declaration in the spellings that occur (normalize itself writes the first one)
+        text = rng.choice(['<?xml version="1.0"?>', "<?xml version='1.0'?>", '<?xml version="1.0" standalone="yes"?>', '<?xml version="1.0" encoding="utf-8"?>',
+                           '<?xml version="1.0"  encoding = "UTF-8" ?>', head, head]) + text[len(head):]
     # undo character references of non-ASCII characters so that NBSP (and friends) are literal in the source text
     return re.sub(r"&#x?([0-9A-Fa-f]+);", lambda m: _unref(m), text)
 
